@@ -40,7 +40,7 @@ Definition receive (s : side) (m : msg) : side * list msg :=
   | MSelReq | MSelRsp =>
     let '(s1, o) := session s (EvCtrl (match m with MSelReq => 1 | _ => 2 end) 1 0) in
     if negb was && selected s1 then let '(s2, y) := comm s1 YLinkUp in (s2, (wire_of_s o ++ wire_of_y y)%list) else (s1, wire_of_s o)
-  | MS1F13 => if was then let '(s1, y) := comm s YInS1F13 in (s1, wire_of_y y) else (s, [])        (* not SELECTED: rejected by the session layer *)
+  | MS1F13 => if was then let '(s1, y) := comm s (YInS1F13 true) in (s1, wire_of_y y) else (s, [])        (* not SELECTED: rejected by the session layer *)
   | MS1F14 => if was then let '(s1, y) := comm s (YInS1F14 0 true) in (s1, wire_of_y y) else (s, [])
   end.
 
